@@ -45,7 +45,7 @@ EXC_PARENTS = {'ValueError': 'Exception', 'IndexError': 'LookupError', 'KeyError
 
 class ExcClass(object):
     def __init__(self, name):
-        self.name = name
+        self.name = self.__name__ = name
 
     def __call__(self, *args):
         return ExcValue(self, args)
@@ -318,7 +318,21 @@ class Interp(object):
         return AnalysisError('%s [at %s]' % (msg, self.where()))
 
     # ------------------------------------------------------------------ objects
+    def exception_name(self, cls):
+        """name under which instances of a class of the package are raised, when it derives from a builtin exception"""
+        for c in cls.mro():
+            for b in c.node.bases:
+                nm = b.id if isinstance(b, ast.Name) else None
+                if nm in EXC_PARENTS or nm in ('Exception', 'BaseException'):
+                    EXC_PARENTS.setdefault(cls.name, nm if c is cls else c.name)
+                    if c is not cls:
+                        EXC_PARENTS.setdefault(c.name, nm)
+                    return cls.name
+        return None
+
     def instantiate(self, cls, args, kwargs):
+        if self.exception_name(cls) is not None and cls.lookup('__init__') is None:
+            return ExcValue(ExcClass(cls.name), tuple(args))
         obj = Obj(cls)
         object.__setattr__(obj, 'interp', self)
         r = cls.lookup('__init__')
@@ -551,8 +565,20 @@ class Interp(object):
                 self.stack.pop()
             yield v
 
+    def eval_defaults(self, clo, fr):
+        """default values of a nested function / lambda are evaluated when it is defined (`lambda x, k=k: ..` in a loop)"""
+        a = clo.node.args
+        clo.defaults = ([self.eval(d, fr) for d in a.defaults],
+                        [self.eval(d, fr) if d is not None else _NODEFAULT for d in a.kw_defaults])
+
+    @staticmethod
+    def bind_name(fr, name, val):
+        owner = getattr(fr, 'nonlocals', {}).get(name)
+        (owner if owner is not None else fr).env[name] = val
+
     def bind_args(self, clo, a, args, kwargs, fr):
         if clo.defaults is None:
+            # (module level functions and methods: evaluated at the first call; module globals do not change under them)
             dfr = Frame(clo.module, parent=clo.parent_frame)
             clo.defaults = ([self.eval(d, dfr) for d in a.defaults],
                             [self.eval(d, dfr) if d is not None else _NODEFAULT for d in a.kw_defaults])
@@ -713,7 +739,8 @@ class Interp(object):
             return
         if T is ast.FunctionDef:
             clo = Closure(self, st, fr.module, parent_frame=fr, owner=None)
-            fr.env[st.name] = self.apply_decorators(clo, st, fr)
+            self.eval_defaults(clo, fr)
+            self.bind_name(fr, st.name, self.apply_decorators(clo, st, fr))
             return
         if T is ast.With:
             entered = []
@@ -743,24 +770,29 @@ class Interp(object):
                 raise self.err('raise of non exception %r' % (v,))
             raise InterpRaise(str(v), v.cls.name, v)
         if T is ast.Try:
+            # the finally block runs however the rest is left: normally, by an exception of the program (also one raised
+            # inside a handler), by return / break / continue
             try:
-                yield from self.exec_block(st.body, fr)
-            except InterpRaise as exc:
-                for h in st.handlers:
-                    if self.handler_matches(h, exc, fr):
-                        if h.name:
-                            fr.env[h.name] = exc.value if exc.value is not None else ExcValue(ExcClass(exc.exc_name), (exc.msg,))
-                        if self.on_except is not None:
-                            self.on_except(h, exc, fr)
-                        yield from self.exec_block(h.body, fr)
-                        break
+                try:
+                    yield from self.exec_block(st.body, fr)
+                except InterpRaise as exc:
+                    for h in st.handlers:
+                        if self.handler_matches(h, exc, fr):
+                            if h.name:
+                                fr.env[h.name] = exc.value if exc.value is not None else ExcValue(ExcClass(exc.exc_name), (exc.msg,))
+                            if self.on_except is not None:
+                                self.on_except(h, exc, fr)
+                            yield from self.exec_block(h.body, fr)
+                            break
+                    else:
+                        raise
                 else:
-                    if st.finalbody:
-                        yield from self.exec_block(st.finalbody, fr)
-                    raise
-            else:
-                if st.orelse:
-                    yield from self.exec_block(st.orelse, fr)
+                    if st.orelse:
+                        yield from self.exec_block(st.orelse, fr)
+            except (InterpRaise, _Return, _Break, _Continue):
+                if st.finalbody:
+                    yield from self.exec_block(st.finalbody, fr)
+                raise
             if st.finalbody:
                 yield from self.exec_block(st.finalbody, fr)
             return
@@ -774,17 +806,38 @@ class Interp(object):
         if T is ast.Assert:
             c = self.truth(self.eval(st.test, fr), st.test, fr)
             if not c:
-                raise InterpRaise('assert', 'AssertionError')
+                raise InterpRaise(str(self.eval(st.msg, fr)) if st.msg is not None else '', 'AssertionError')
             return
         if T is ast.Delete:
             for t in st.targets:
                 if isinstance(t, ast.Name):
                     fr.env.pop(t.id, None)
+                elif isinstance(t, ast.Subscript):
+                    base = self.eval(t.value, fr)
+                    if not isinstance(base, (list, dict)):
+                        raise self.err('del of an item of %s' % type(base).__name__)
+                    del base[self.eval_index(t.slice, fr)]
+                elif isinstance(t, ast.Attribute):
+                    base = self.eval(t.value, fr)
+                    if not isinstance(base, Obj) or t.attr not in base.attrs:
+                        raise self.err('del of attribute %s' % t.attr)
+                    del base.attrs[t.attr]
                 else:
                     raise self.err('unsupported del')
             return
-        if T is ast.Global or T is ast.Nonlocal:
-            raise self.err('global/nonlocal statement not supported')
+        if T is ast.Nonlocal:
+            # rebinding a variable of an enclosing function: alias the name to the frame that owns it
+            for name in st.names:
+                f = fr.parent
+                while f is not None and name not in f.env:
+                    f = f.parent
+                if f is None:
+                    raise self.err('nonlocal %s: no binding found' % name)
+                fr.nonlocals = getattr(fr, 'nonlocals', {})
+                fr.nonlocals[name] = f
+            return
+        if T is ast.Global:
+            raise self.err('global statement not supported')
         raise self.err('unsupported statement %s' % T.__name__)
 
     on_except = None
@@ -803,6 +856,7 @@ class Interp(object):
             return True
         t = self.eval(h.type, fr)
         ts = t if isinstance(t, tuple) else (t,)
+        ts = tuple(ExcClass(x.cls.name) if isinstance(x, ClassRef) and self.exception_name(x.cls) is not None else x for x in ts)
         return any(isinstance(x, ExcClass) and x.matches(exc.exc_name) for x in ts)
 
     def truth(self, v, node, fr):
@@ -836,7 +890,7 @@ class Interp(object):
 
     def assign(self, t, val, fr):
         if isinstance(t, ast.Name):
-            fr.env[t.id] = val
+            self.bind_name(fr, t.id, val)
         elif isinstance(t, (ast.Tuple, ast.List)):
             vals = list(self.iterate(val))
             star = [i for i, e in enumerate(t.elts) if isinstance(e, ast.Starred)]
@@ -891,9 +945,11 @@ class Interp(object):
                 cur._where = self.where()
                 if self.on_store is not None:
                     self.on_store(cur, Ellipsis, rhs)
-                fr.env[t.id] = getattr(cur, _IOPS[type(st.op)])(rhs)
+                self.bind_name(fr, t.id, getattr(cur, _IOPS[type(st.op)])(rhs))
+            elif isinstance(cur, list) and isinstance(st.op, ast.Add):
+                cur.extend(self.iterate(rhs))              # list += iterable extends in place (aliases see it)
             else:
-                fr.env[t.id] = self.binop(st.op, cur, rhs)
+                self.bind_name(fr, t.id, self.binop(st.op, cur, rhs))
         elif isinstance(t, ast.Attribute):
             o = self.eval(t.value, fr)
             cur = self.getattr(o, t.attr)
@@ -902,6 +958,8 @@ class Interp(object):
                 if self.on_store is not None:
                     self.on_store(cur, Ellipsis, rhs)
                 self.setattr(o, t.attr, getattr(cur, _IOPS[type(st.op)])(rhs))
+            elif isinstance(cur, list) and isinstance(st.op, ast.Add):
+                cur.extend(self.iterate(rhs))
             else:
                 self.setattr(o, t.attr, self.binop(st.op, cur, rhs))
         elif isinstance(t, ast.Subscript):
@@ -1025,7 +1083,9 @@ class Interp(object):
                     d[self.eval(k, fr)] = self.eval(v, fr)
             return d
         if T is ast.Lambda:
-            return Closure(self, n, fr.module, parent_frame=fr, owner=None)
+            clo = Closure(self, n, fr.module, parent_frame=fr, owner=None)
+            self.eval_defaults(clo, fr)
+            return clo
         if T in (ast.ListComp, ast.GeneratorExp, ast.SetComp):
             out = []
             self.comprehension(n.generators, 0, fr, lambda f2: out.append(self.eval(n.elt, f2)))
@@ -1188,6 +1248,10 @@ class Interp(object):
             raise InterpTypeError('unsupported operand type(s) for %s' % name)
         if isinstance(a, (list, tuple)) and isinstance(b, (list, tuple)) and T is ast.Add:
             return a + b
+        if isinstance(a, (set, frozenset)) and isinstance(b, (set, frozenset)) and T in (ast.BitOr, ast.BitAnd, ast.Sub, ast.BitXor):
+            return {ast.BitOr: a | b, ast.BitAnd: a & b, ast.Sub: a - b, ast.BitXor: a ^ b}[T]
+        if isinstance(a, dict) and isinstance(b, dict) and T is ast.BitOr:
+            return {**a, **b}
         if isinstance(a, (list, tuple, str)) and isinstance(b, int) and T is ast.Mult and not isinstance(a, Arr):
             return a * b
         if isinstance(a, str) and T is ast.Mod:
@@ -1220,6 +1284,12 @@ class Interp(object):
                 raise self.err('symbolic membership test')
             if isinstance(a, (bool, int)) and isinstance(b, (list, tuple)) and any(isinstance(e, Unk) for e in b):
                 raise self.err('membership test in a container holding an undetermined value')
+            if isinstance(b, Obj):
+                if self.has_dunder(b, '__contains__'):
+                    r = self.truth(self.call_dunder(b, '__contains__', a), op, Frame(None))
+                else:
+                    r = any(self.compare(ast.Eq(), a, e) is True for e in self.iterate(b))
+                return r if T is ast.In else not r
             r = a in b
             return r if T is ast.In else not r
         sym = _CMP_SYM[T]
@@ -1229,10 +1299,16 @@ class Interp(object):
                 return self.call_dunder(a, dn[0], b)
             if isinstance(b, Obj) and self.has_dunder(b, dn[1]):
                 return self.call_dunder(b, dn[1], a)
+            if sym == '!=':
+                # python derives != from __eq__ when __ne__ is not defined
+                for o, other in ((a, b), (b, a)):
+                    if isinstance(o, Obj) and self.has_dunder(o, '__eq__'):
+                        r = self.call_dunder(o, '__eq__', other)
+                        if r is not NotImplemented:
+                            return ndarr.s_not(r) if not isinstance(r, bool) else not r
+                return a is not b
             if sym == '==':
                 return a is b
-            if sym == '!=':
-                return a is not b
             raise InterpTypeError('unorderable types')
         if isinstance(a, (str, type(None), dict, set, frozenset, type, ClassRef, ExcClass)) or \
                 isinstance(b, (str, type(None), dict, set, frozenset, type, ClassRef, ExcClass)):
@@ -1242,6 +1318,18 @@ class Interp(object):
                 return ndarr._CMP[sym](a, b)
             except AnalysisError:
                 raise
+        if isinstance(a, (list, tuple)) and isinstance(b, (list, tuple)) and type(a) is type(b):
+            # python orders sequences lexicographically (it does not compare them element by element like numpy)
+            for x, y in zip(a, b):
+                eq = self.compare(ast.Eq(), x, y)
+                if not isinstance(eq, bool):
+                    raise self.err('ordering of sequences with undetermined elements')
+                if not eq:
+                    r = self.compare(op, x, y)
+                    if not isinstance(r, bool):
+                        raise self.err('ordering of sequences with undetermined elements')
+                    return r
+            return ndarr._CMP[sym](len(a), len(b))
         return ndarr.ew2(lambda x, y: s_cmp(sym, x, y), a, b)
 
     # ------------------------------------------------------------------ builtins
@@ -1263,7 +1351,12 @@ class Interp(object):
                 x = x.item()
             if isinstance(x, bool):
                 return int(x)
-            if isinstance(x, (int, str)):
+            if isinstance(x, str):
+                try:
+                    return int(x, *a)
+                except ValueError as exc:
+                    raise InterpValueError(str(exc))
+            if isinstance(x, int):
                 return int(x, *a)
             if isinstance(x, Fr):
                 return int(x)
@@ -1418,12 +1511,24 @@ class Interp(object):
         def b_type(x):
             if isinstance(x, Obj):
                 return I.classref(x.cls)
+            if isinstance(x, ExcValue):
+                return x.cls
             if isinstance(x, (Fr, Poly, Rat)) or hasattr(x, 'is_elem_'):
                 cplx = (isinstance(x, Poly) and not x.is_real()) or getattr(x, 'kind', None) in ('c', 'z')
                 return NumType('c' if cplx else 'f')
             if isinstance(x, (Unk, Choice)):
                 raise I.err('type() of an undetermined value')
             return type(x)
+
+        def b_repr(x):
+            if isinstance(x, Obj):
+                for d in ('__repr__', '__str__'):
+                    if I.has_dunder(x, d):
+                        return I.call_dunder(x, d)
+            if isinstance(x, (list, tuple)) and any(isinstance(e, Obj) for e in x):
+                inner = ', '.join(b_repr(e) for e in x)
+                return '[%s]' % inner if isinstance(x, list) else '(%s%s)' % (inner, ',' if len(x) == 1 else '')
+            return repr(x)
 
         def b_hash(x):
             def walk(v):
@@ -1488,7 +1593,7 @@ class Interp(object):
             'reversed': lambda x: reversed(list(I.iterate(x))), 'any': b_any, 'all': b_all,
             'map': lambda f, *its: map(f, *[I.iterate(i) for i in its]),
             'filter': lambda f, it: filter(f, I.iterate(it)), 'round': b_round, 'divmod': b_divmod,
-            'type': b_type, 'hash': b_hash, 'object': object, 'repr': repr, 'NotImplemented': NotImplemented,
+            'type': b_type, 'hash': b_hash, 'object': object, 'repr': b_repr, 'NotImplemented': NotImplemented,
             'True': True, 'False': False, 'None': None, 'complex': b_complex, 'slice': slice,
             'iter': lambda x: I.iterate(x), 'next': next, 'id': id, 'pow': s_pow,
             'property': property, 'staticmethod': staticmethod, 'Ellipsis': Ellipsis,
